@@ -1088,16 +1088,82 @@ func checkC19(c *Check) {
 					return ok && rhs != nil && objOf(ri, rhs) == connObj && fieldOf(ri, ix.X) != nil
 				})
 			}
+			// a helper of the package that is handed the connection and closes it on each of its failure returns owns it
+			// on the failure edge of its result
+			var closedOnErr []types.Object
+			for _, pt := range r.F.Points() {
+				for _, call := range callsAt(pt.Node()) {
+					ai := -1
+					for i, a := range call.Args {
+						if objOf(ri, a) == connObj {
+							ai = i
+						}
+					}
+					fn := callee(ri, call)
+					if ai < 0 || fn == nil || fn.Pkg() != r.FI.Pkg.Types {
+						continue
+					}
+					d := c.P.DeclOf(fn)
+					if d == nil || d.Decl.Body == nil {
+						continue
+					}
+					g := c.CtxOf(d)
+					sig := fn.Type().(*types.Signature)
+					if ai >= sig.Params().Len() {
+						continue
+					}
+					prm := sig.Params().At(ai)
+					closesPrm := func(q Pt) bool {
+						for _, cc := range callsAt(q.Node()) {
+							if methodName(cc) == "Close" && recvObj(g.Info, cc) == types.Object(prm) {
+								return true
+							}
+						}
+						return false
+					}
+					failure := func(q Pt) bool {
+						k, ret := g.F.Exit(q)
+						return k != NotExit && g.F.IsNormalExit(q) && ret != nil && len(ret.Results) > 0 && !g.IsSuccessReturn(q)
+					}
+					if _, leak := g.F.Reach(Query{From: g.Entry(), Inclusive: true, Target: failure, Avoid: closesPrm}); !leak {
+						if eo := errVarAssigned(ri, pt.Node(), call); eo != nil {
+							closedOnErr = append(closedOnErr, eo)
+						}
+					}
+				}
+			}
+			helperFailed := func(b *cfgBlock, i int) bool {
+				cond, isCase := r.F.Cond(b)
+				if cond == nil || isCase {
+					return false
+				}
+				for _, fact := range atomsOnEdge(cond, i) {
+					for _, eo := range closedOnErr {
+						if ns, ok := nilTest(ri, fact.E, eo); ok && (ns == 0) != fact.T {
+							return true
+						}
+					}
+				}
+				return false
+			}
 			for _, d := range defs {
-				if path, f := r.F.Reach(Query{From: []Pt{d}, Target: r.F.IsNormalExit, Avoid: owned}); f {
+				if path, f := r.F.Reach(Query{From: []Pt{d}, Target: r.F.IsNormalExit, Avoid: owned, AvoidEdge: helperFailed}); f {
 					msg = "a connection taken from the pool can be dropped (neither recorded for Close nor closed): " + r.F.Describe(path)
 				}
 			}
 			call := r.CallAt(newConnPt, calling("~/"+remoteRel+".remoteDelivery.newConn"))
+			eoNew := errVarAssigned(ri, newConnPt.Node(), call)
+			if eoNew == nil {
+				msg = "the error of newConn is dropped"
+			} else if path, found := r.F.ReachRefined2(newConnPt, eoNew, true, false, r.F.IsNormalExit, owned, helperFailed); found {
+				msg = "a newly opened connection can be dropped (neither recorded for Close nor closed): " + r.F.Describe(path)
+			}
+			if false {
 			if found, w, decided := r.OnErr(newConnPt, call, true, r.F.IsNormalExit, owned); !decided {
 				msg = "the error of newConn is dropped"
 			} else if found {
 				msg = "a newly opened connection can be dropped (neither recorded for Close nor closed): " + w
+			}
 			}
 		}
 		c.Hold("R7", "connectionForDomain:connection-owned", r.FI.Decl.Pos(), msg == "", msg)
